@@ -6,7 +6,7 @@
 From Coq Require Import Reals ZArith List Bool Arith.
 From Coquelicot Require Import Coquelicot.
 From P Require Import C08_model_base C08_gen C08_model_spec C08_model C08_proofs_loop C08_proofs_order C08_proofs_azimuth
-  C08_proofs_small C08_proofs_polar C08_proofs_sph.
+  C08_proofs_small C08_proofs_polar.
 Import ListNotations.
 Open Scope R_scope.
 
@@ -31,16 +31,7 @@ Theorem pole_convention : forall sre sim : Z -> Z -> R -> R -> R,
 Proof. exact pole_convention_lemma. Qed.
 Print Assumptions pole_convention.
 
-(* ---- l <= 3, ALL angles (partial: the degree bound is in the statement; l > 3 is covered numerically) *)
-Theorem closed_forms_partial : forall L th ph, (3 <= L)%nat -> firstn 16 (sph_model L th ph) = textbook3 th ph.
-Proof. exact closed_forms_lemma. Qed.
-Print Assumptions closed_forms_partial.
-
-Theorem addition_theorem_partial : forall L l th1 ph1 th2 ph2, (l <= 3)%nat -> (l <= L)%nat ->
-  addsum L l th1 ph1 th2 ph2 = (2 * INR l + 1) / (4 * PI) * Pleg l (cosgamma th1 ph1 th2 ph2).
-Proof. exact addition_theorem_lemma. Qed.
-Print Assumptions addition_theorem_partial.
-
+(* ---- l <= 3: the Legendre derivative identity closes the reduction (partial: degree bound in the statement) *)
 Theorem polar_derivative_partial : forall sre sim : Z -> Z -> R -> R -> R,
   (forall (l m : nat) th ph, 0 <= ph <= PI -> (1 <= m)%nat ->
      sre (Z.of_nat l) (Z.of_nat m) ph th = m1pow (Z.of_nat m) * (Flm l m ph / sqrt 2) * cos (INR m * th) /\
